@@ -2112,3 +2112,25 @@ def rule_one_spelling_of_nothing(ctx, rep, rid: str, modules=("vm", "context", "
             rep.ok(rid, key)
     if n == 0:
         rep.ok(rid, "no-tuple-of-nones", {"note": "no function answers with a tuple of Nones"})
+
+
+def rule_delete_answers_gone(ctx, rep, rid: str) -> None:
+    """`delete o.k` answers whether the property is gone afterwards - true also when it was never there.  The object
+    model's own delete reports whether it FOUND something; handing that flag to the script turns `delete o.missing`
+    into false."""
+    rep.rule(rid, "the interpreter's delete helper does not return the object model's found-something flag as the result of the delete operator", floor=1)
+    df, _ = ctx.facts.vm_dispatcher()
+    n = 0
+    for m in df.cls.all_methods:
+        if isinstance(m.node, ast.Lambda) or "delete" not in m.name:
+            continue
+        for r in m.own_nodes():
+            if isinstance(r, ast.Return) and r.value is not None:
+                n += 1
+                key = f"{m.qual}:return@{short(r, 30)}"
+                if isinstance(r.value, ast.Call) and isinstance(r.value.func, ast.Attribute) and r.value.func.attr in ("delete", "pop", "remove", "discard"):
+                    rep.bad(rid, key, f"{m.qual} returns `{short(r.value, 40)}` - whether something was removed - as the value of the delete operator: `var o = {{a: 1}}; delete o.b` is false where ECMAScript says true (the property is gone afterwards)", f"{m.module.rel}:{r.lineno}")
+                else:
+                    rep.ok(rid, key)
+    if n == 0:
+        raise AnalysisError(f"{rid}: the interpreter's delete helper was not found")
